@@ -81,6 +81,60 @@ Proof.
   - destruct H; [left; apply N.leb_gt; lia | right; apply N.leb_gt; lia].
 Qed.
 
+
+(* ---------------------------------------------------------------- parser: the number automaton *)
+(* number.rs: `match state { State::S => match c { .. } }`.  Naming convention: the variants of the local
+   `enum State`; an outcome is the next state, "break" (the loop is left: the character follows a number in this
+   context) or an error (left out of the table: every other character) *)
+Definition ct_nstate_name (s : nstate) : string :=
+  match s with
+  | NInit => "Init" | NFirstDigit => "FirstDigit" | NZero => "Zero" | NNonZero => "NonZero"
+  | NFracFirst => "FractionalFirst" | NFracRest => "FractionalRest"
+  | NExpSign => "ExponentSign" | NExpFirst => "ExponentFirst" | NExpRest => "ExponentRest"
+  end.
+Definition ct_nstates : list nstate :=
+  [NInit; NFirstDigit; NZero; NNonZero; NFracFirst; NFracRest; NExpSign; NExpFirst; NExpRest].
+Definition ct_ntrans_name (t : ntrans) : option string :=
+  match t with NGo s => Some (ct_nstate_name s) | NBreak => Some "break" | NBad => None end.
+Definition ct_outcomes : list string := map ct_nstate_name ct_nstates ++ ["break"].
+Definition ct_opt_is (o : string) (x : option string) : bool :=
+  match x with Some y => String.eqb y o | None => false end.
+Definition ct_num_row (ctx : context) (s : nstate) : list (string * list (N * N)) :=
+  filter (fun p => match snd p with [] => false | _ => true end)
+    (map (fun o => (o, set_of (fun c => ct_opt_is o (ct_ntrans_name (num_trans ctx s c))) char_domain)) ct_outcomes).
+Definition ct_number_automaton :=
+  (ct_nstate_name NInit,
+   map ct_nstate_name (filter num_final ct_nstates),
+   map (fun ctx => (ct_ctx_name ctx, map (fun s => (ct_nstate_name s, ct_num_row ctx s)) ct_nstates)) ct_contexts).
+
+Theorem tie_number_automaton : src_number_automaton = ct_number_automaton.
+Proof. vm_compute. reflexivity. Qed.
+
+Lemma ct_nstates_all : forall s, In s ct_nstates.
+Proof. intros s; destruct s; cbn; tauto. Qed.
+Lemma ct_nstate_name_inj : forall a b, ct_nstate_name a = ct_nstate_name b -> a = b.
+Proof. intros a b; destruct a, b; cbn; intros H; try reflexivity; discriminate H. Qed.
+(* beyond the evaluated code points every character is an error in every state *)
+Lemma num_trans_above : forall ctx s c, 256 <= c -> num_trans ctx s c = NBad.
+Proof.
+  intros ctx s c H. unfold num_trans. rewrite (follows_above ctx c H).
+  assert (Hd : is_digit c = false) by (unfold is_digit; apply andb_false_iff; right; apply N.leb_gt; lia).
+  assert (Ho : is_onenine c = false) by (unfold is_onenine; apply andb_false_iff; right; apply N.leb_gt; lia).
+  destruct s; rewrite ?Hd, ?Ho; ct_no_eqb c; reflexivity.
+Qed.
+
+(* ---------------------------------------------------------------- parser: two-character escapes *)
+(* the character the parser model returns for the text "\X" (none: X is no escape letter, or is `u`) *)
+Definition ct_escape_char (x : N) : option N :=
+  match from_str [0x22; 0x5C; x; 0x22] with
+  | Ok (VStr [c]) => Some c
+  | _ => None
+  end.
+Definition ct_escape_table : list (N * N) :=
+  flat_map (fun x => match ct_escape_char x with Some c => [(x, c)] | None => [] end) char_domain.
+Theorem tie_escape_table : src_escape_table = ct_escape_table.
+Proof. vm_compute. reflexivity. Qed.
+
 (* ---------------------------------------------------------------- printer: presets *)
 
 Definition cval_of_indent (i : indent) : cval :=
@@ -233,6 +287,16 @@ Theorem follows_from_source :
   /\ (forall ctx c, 256 <= c -> Parser.follows ctx c = false).
 Proof. exact (conj tie_follows follows_above). Qed.
 
+Theorem number_automaton_from_source :
+  src_number_automaton = ct_number_automaton
+  /\ (forall ctx s c, 256 <= c -> num_trans ctx s c = NBad)
+  /\ (forall s, In s ct_nstates)
+  /\ (forall a b, ct_nstate_name a = ct_nstate_name b -> a = b).
+Proof. exact (conj tie_number_automaton (conj num_trans_above (conj ct_nstates_all ct_nstate_name_inj))). Qed.
+
+Theorem parser_escapes_from_source : src_escape_table = ct_escape_table.
+Proof. exact tie_escape_table. Qed.
+
 Theorem control_from_source :
   src_is_control = set_of Parser.is_control char_domain /\ (forall c, 256 <= c -> Parser.is_control c = false).
 Proof. exact (conj tie_is_control is_control_above). Qed.
@@ -292,6 +356,8 @@ Proof. exact (conj tie_kind_anything_disjunction tie_kind_anything_conjunction).
 
 Print Assumptions tie_is_whitespace.
 Print Assumptions follows_from_source.
+Print Assumptions number_automaton_from_source.
+Print Assumptions parser_escapes_from_source.
 Print Assumptions surrogate_pair_from_source.
 Print Assumptions presets_from_source.
 Print Assumptions escapes_from_source.
